@@ -9,6 +9,10 @@ def install(plans: list, rt) -> None:
             _install_queue_put(plan, rt)
         elif kind == "ews_setattr":
             _install_ews_setattr(plan, rt)
+        elif kind == "qop_gate":
+            _install_qop_gate(plan, rt)
+        elif kind == "batcher_config":
+            _install_batcher_config(plan, rt)
 
 
 def _install_queue_put(plan, rt):
@@ -61,3 +65,47 @@ def _install_ews_setattr(plan, rt):
 
     cls.__setattr__ = __setattr__
     rt.post("targeted_attached", what="ews_setattr")
+
+
+def _install_qop_gate(plan, rt):
+    """Gate the construction of the queue wrapper of matching updates: the point between the failure check and the
+    orphan-check/enqueue critical section of create_checkpoint (outside every lock)."""
+    import re
+
+    from aws_durable_execution_sdk_python import state as m_state
+
+    orig = getattr(m_state, "QueuedOperation", None)
+    if orig is None:
+        return
+    want = plan.get("match") or {}
+
+    def gated(operation_update=None, completion_event=None, *a, **kw):
+        upd = operation_update
+        if upd is not None:
+            act, typ, name = upd.action.value, upd.operation_type.value, upd.name or ""
+            if (not want.get("action") or want["action"] == act) and (not want.get("type") or want["type"] == typ) and (
+                not want.get("name_re") or re.search(want["name_re"], name)
+            ):
+                rt.rpc("gate", name="qop:%s:%s:%s" % (typ, act, name), path=name)
+        return orig(operation_update, completion_event, *a, **kw)
+
+    m_state.QueuedOperation = gated
+    rt.post("targeted_attached", what="qop_gate")
+
+
+def _install_batcher_config(plan, rt):
+    """Run the invocation with a non-default CheckpointBatcherConfig (the wrapper builds ExecutionState with the default one)."""
+    from aws_durable_execution_sdk_python import state as m_state
+
+    orig = getattr(m_state, "CheckpointBatcherConfig", None)
+    if orig is None:
+        return
+
+    def factory(*a, **kw):
+        if a or kw:
+            return orig(*a, **kw)
+        return orig(max_batch_size_bytes=plan.get("max_bytes", 750 * 1024), max_batch_time_seconds=plan.get("window", 1.0),
+                    max_batch_operations=plan.get("max_ops", 250))
+
+    m_state.CheckpointBatcherConfig = factory
+    rt.post("targeted_attached", what="batcher_config")
